@@ -977,6 +977,18 @@ def mon_c19(scripts, stats):
                 else:
                     k = (int(a['domain']), pad32(t))
                     exp = 'ok item=%d:%s:%s' % (k[0], k[1].hex(), ref.pair[k].hex()) if k in ref.pair else 'err'
+            elif ty in ('BurningAndMintingPaused', 'SendingAndReceivingMessagesPaused', 'MaxMessageBodySize', 'NextAvailableNonce', 'SignatureThreshold'):
+                st = state_of(pre)
+                v = {'BurningAndMintingPaused': st['flag'].get('bm'), 'SendingAndReceivingMessagesPaused': st['flag'].get('sr'),
+                     'MaxMessageBodySize': st['num'].get('maxbody'), 'NextAvailableNonce': st['num'].get('nextnonce'),
+                     'SignatureThreshold': st['num'].get('threshold')}[ty]
+                exp = 'err' if v is None else 'ok v=' + v
+            elif ty == 'Roles':
+                r = state_of(pre)['role']
+                if all(k in r for k in ('owner', 'attmgr', 'pauser', 'tokctl')):
+                    exp = 'ok owner=%s attmgr=%s pauser=%s tokctl=%s' % (r['owner'], r['attmgr'], r['pauser'], r['tokctl'])
+            elif ty in ('LocalDomain', 'LocalMessageVersion', 'BurnMessageVersion'):
+                exp = 'ok v=4' if ty == 'LocalDomain' else 'ok v=0'
             elif ty in ('Attesters', 'PerMessageBurnLimits', 'TokenPairs', 'UsedNonces', 'RemoteTokenMessengers') and a['reverse'] == '0':
                 rows = ref.listing(ty)
                 limit, off, key = int(a['limit']), int(a['offset']), bytes.fromhex(a['key'])
